@@ -506,6 +506,9 @@ func schemaStrings(n *Node, out map[string]bool, layoutsOut map[string]bool) {
 	}
 	add(n.Def)
 	add(n.Catch)
+	for _, x := range n.ExtraStrs {
+		out[x] = true
+	}
 	add(n.CoerceTo)
 	for _, l := range n.DefSlice {
 		if l.Kind == KString {
